@@ -98,7 +98,7 @@ def make_items(tier, seed):
         for k, (fam, src) in enumerate(P):
             # quick: the signature core under both profiles, every other program under one of them
             # (alternating), thorough: everything under both
-            if tier != "thorough" and fam != "sig" and (opt == "fast") != (k % 2 == 1):
+            if tier != "thorough" and fam not in ("sig", "ctl-names", "ctl-alias") and (opt == "fast") != (k % 2 == 1):
                 continue
             out.append({"fam": fam, "src": src, "opt": opt, "uncompute": True})
     # the round trip is claimed for every compiler setting: circuits left un-uncomputed, both profiles,
@@ -118,7 +118,7 @@ def make_items(tier, seed):
             out.append({"fam": "cfg:" + fam, "src": src, "opt": "fast", "uncompute": True, "history": True})
     if tier == "thorough":
         return out
-    core = [sp for sp in out if sp["fam"] == "sig" or sp["fam"] == "cfg:ctl-stale"]
+    core = [sp for sp in out if sp["fam"] in ("sig", "cfg:ctl-stale", "ctl-names", "ctl-alias")]
     rest = [sp for sp in out if sp not in core]
     return slice_quick(core + rest, seed, len(core), 120)
 
